@@ -7,6 +7,7 @@
    states.  Helper lemmas: Proofs/ChainView.lean. -/
 import LdkModel.Proofs.ChainView
 import LdkModel.Proofs.ClaimView
+import LdkModel.Proofs.Unconfirm
 namespace Ldk.C11
 open Ldk Ldk.ChainView Ldk.ClaimHeights
 
@@ -725,5 +726,198 @@ example :
     let K : ClaimCat := { outs := [(7, { parent := 1, needs := some 5, holder := false })], spends := fun _ => [] }
     let s := crun exCat K (cinit 99) [.preimage 5, .chain (.txsConfirmed 100 [1]), .chain (.bestBlock 101), .chain (.txUnconfirmed 1)]
     known s.st 1 = false ∧ s.claims = [⟨7, 100⟩] := by decide
+
+/-! ## The `transaction_unconfirmed`-only rewind (Confirm clients that report a re-org by naming the removed
+transactions — in whatever order — and never announce a lower best block)
+
+`UnconfOk aw us h` / `HUnconfOk hAw us h` is the Confirm contract for such a rewind to fork point `h`, stated
+on the queue it acts on: only removed transactions are reported, every queued removed transaction is reported
+(`Inv.unconfOk`: a list naming exactly the fork chain's transactions above `h`, any order, any repetition,
+satisfies it in every reachable state).  The theorems say what the calls do — for EVERY order — and how the
+result differs from the Listen client's `blocks_disconnected(h)`: the best height stays, and claims that no
+handler entry reaches linger.  Every other difference is excluded by theorem. -/
+
+/-- The monitor's retain test in transaction_unconfirmed, as translated on this run
+    (`entry.height >= removed_height` drops), is the one the model's `txUnconfirmed` applies. -/
+theorem txUnconfirmed_uses_translated_test (s : St) (t : Nat) :
+    txUnconfirmed s t =
+      match s.awaiting.find? (fun e => e.txid == t) with
+      | some e => { s with awaiting := s.awaiting.filter (fun x => !monitorEntryUnconfirmed x.height e.height) }
+      | none => s := by
+  unfold txUnconfirmed
+  cases s.awaiting.find? (fun e => e.txid == t) with
+  | none => rfl
+  | some e =>
+    have : s.awaiting.filter (fun x => decide (x.height < e.height)) = s.awaiting.filter (fun x => !monitorEntryUnconfirmed x.height e.height) := by
+      apply List.filter_congr
+      intro x _
+      simp only [monitorEntryUnconfirmed]
+      by_cases hx : x.height < e.height
+      · have : ¬ x.height ≥ e.height := by omega
+        simp [hx, this]
+      · have : x.height ≥ e.height := by omega
+        simp [hx, this]
+    simp only [this]
+
+example : monitorEntryUnconfirmed 101 100 = true ∧ monitorEntryUnconfirmed 100 100 = true ∧ monitorEntryUnconfirmed 99 100 = false := by decide
+
+/-- ORDER INDEPENDENCE on the monitor's queue.  From ANY state, any two lists of `transaction_unconfirmed`
+    calls that follow the contract for fork point `h` (different orders, repetitions, extra ids of removed
+    transactions the monitor does not hold) end in the SAME state, which is `rewindTo s h` — what
+    `blocks_disconnected(h)` / `best_block_updated(h)` give — except that the best height is not touched. -/
+theorem unconfirm_order_independent (cat : Catalog) (s : St) (us₁ us₂ : List Nat) (h : Nat)
+    (ok₁ : UnconfOk s.awaiting us₁ h) (ok₂ : UnconfOk s.awaiting us₂ h) :
+    run cat s (unconfOps us₁) = run cat s (unconfOps us₂) ∧
+    run cat s (unconfOps us₁) = { rewindTo s h with best := s.best } := by
+  rw [run_unconfOps cat s us₁ h ok₁, run_unconfOps cat s us₂ h ok₂]
+  exact ⟨rfl, rfl⟩
+
+/-- non-vacuity: commitment 1 at 100, a later transaction 2 at 101, both removed (fork point 99): lowest
+    first, highest first — one result, nothing above 99 left, best still 102 -/
+example :
+    let cat : Catalog := fun t => if t = 1 then [{ kind := 2, csv := none }] else [{ kind := 3, csv := none }]
+    let s := run cat (init 98) [.txsConfirmed 99 [7], .txsConfirmed 100 [1], .txsConfirmed 101 [2], .bestBlock 102]
+    UnconfOk s.awaiting [1, 2] 99 ∧ UnconfOk s.awaiting [2, 1] 99 ∧
+    run cat s (unconfOps [1, 2]) = run cat s (unconfOps [2, 1]) ∧
+    (run cat s (unconfOps [1, 2])).awaiting.length = 1 ∧ (run cat s (unconfOps [1, 2])).best = 102 ∧ s.awaiting.length = 3 := by
+  refine ⟨⟨by decide, by decide, by decide⟩, ⟨by decide, by decide, by decide⟩, by decide, by decide, by decide, by decide⟩
+
+/-- Connected-then-disconnected fork through the unconfirm-only client — the case the `_partial` fork
+    theorems above exclude.  `opsF` admissibly presents (part of) the fork chain `cF`; then
+    `transaction_unconfirmed` is called for the transactions of `cF` above the fork point `h`, in ANY order
+    `us` (only those, and all of them); then `opsFin` admissibly presents the final chain's blocks above `h`
+    STARTING FROM THE STALE best height (best_block_updated never goes below the fork's tip) and reaches the
+    final tip.  If the fork is shallower than ANTI_REORG_DELAY the conclusion is the canonical one of the
+    final chain — as if the fork had never been seen, exactly as for a Listen client. -/
+theorem fork_unconfirm_only_canonical (cat : Catalog) (cF c' : Chain) (b0 h : Nat)
+    (opsF opsFin : List Op) (us : List Nat) (hwfF : WF cF) (hwf : WF c')
+    (hagree : ∀ k t, k ≤ h → (inChain c' k t ↔ inChain cF k t))
+    (haF : Adm cF b0 opsF)
+    (hh : h < topHeight b0 opsF) (hd : topHeight b0 opsF < h + ANTI_REORG_DELAY)
+    (honly : ∀ t ∈ us, ∃ k, h < k ∧ inChain cF k t)
+    (hall : ∀ k t, h < k → inChain cF k t → t ∈ us)
+    (haFin : Adm c' (topHeight b0 opsF) opsFin)
+    (hcomplete : ∀ k t, inChain c' k t → t ∈ delivered opsFin ∨ (k ≤ h ∧ t ∈ delivered opsF))
+    (htop : topHeight (topHeight b0 opsF) opsFin = tip b0 c') :
+    Equiv (run cat (init b0) (opsF ++ unconfOps us ++ opsFin)) (canon cat b0 c') :=
+  fork_unconf_canon hwfF hwf hagree haF hh hd honly hall haFin hcomplete htop
+
+/-- … hence it agrees with every fork-free presentation of the final chain, and any two orders of the
+    `transaction_unconfirmed` calls agree with each other. -/
+theorem fork_unconfirm_only_vs_forkfree (cat : Catalog) (cF c' : Chain) (b0 h : Nat)
+    (opsF opsFin ops : List Op) (us : List Nat) (hwfF : WF cF) (hwf : WF c')
+    (hagree : ∀ k t, k ≤ h → (inChain c' k t ↔ inChain cF k t))
+    (haF : Adm cF b0 opsF)
+    (hh : h < topHeight b0 opsF) (hd : topHeight b0 opsF < h + ANTI_REORG_DELAY)
+    (honly : ∀ t ∈ us, ∃ k, h < k ∧ inChain cF k t)
+    (hall : ∀ k t, h < k → inChain cF k t → t ∈ us)
+    (haFin : Adm c' (topHeight b0 opsF) opsFin)
+    (hcomplete : ∀ k t, inChain c' k t → t ∈ delivered opsFin ∨ (k ≤ h ∧ t ∈ delivered opsF))
+    (htop : topHeight (topHeight b0 opsF) opsFin = tip b0 c')
+    (hp : Presents b0 c' ops) :
+    Equiv (run cat (init b0) (opsF ++ unconfOps us ++ opsFin)) (run cat (init b0) ops) :=
+  (fork_unconfirm_only_canonical cat cF c' b0 h opsF opsFin us hwfF hwf hagree haF hh hd honly hall haFin hcomplete htop).trans
+    (presents_canon hwf hp).symm
+
+/-- non-vacuity: fork [101: tx 1, 102: tx 2], both reported unconfirmed lowest-first / highest-first, then the
+    index-syncing client's tip-only re-sync (best_block_updated(103), then transactions_confirmed(102, [1])):
+    the conclusion is that of the whole-block delivery of the final chain -/
+example :
+    let cat : Catalog := fun t => if t = 1 then [{ kind := 2, csv := none }] else [{ kind := 3, csv := none }]
+    let opsF : List Op := [.txsConfirmed 101 [1], .bestBlock 101, .txsConfirmed 102 [2], .bestBlock 102]
+    let opsFin : List Op := [.bestBlock 103, .txsConfirmed 102 [1]]
+    let goal := run cat (init 100) [.blockConnected 101 [], .blockConnected 102 [1], .blockConnected 103 []]
+    run cat (init 100) (opsF ++ unconfOps [1, 2] ++ opsFin) = goal ∧
+    run cat (init 100) (opsF ++ unconfOps [2, 1] ++ opsFin) = goal ∧ goal.awaiting.length = 1 := by decide
+
+/-- ORDER INDEPENDENCE and the exact difference to the Listen client, claims layer.  From ANY state, for any
+    list `us` of `transaction_unconfirmed` calls following the contract for fork point `h` on both queues:
+    the monitor part is `rewindTo` with the best height kept, the OnchainTxHandler's awaiting entries and the
+    known preimages are EXACTLY those `blocks_disconnected(h)` leaves (in particular no entry of a removed
+    transaction survives, whichever transaction was reported first), and the claims are those
+    `blocks_disconnected(h)` leaves PLUS the lingering ones: dated above `h` but below every handler entry
+    above `h` (claims whose parent — the counterparty's commitment — has no handler entry). -/
+theorem unconfirm_only_vs_listen (cat : Catalog) (K : ClaimCat) (s : CSt) (us : List Nat) (h : Nat)
+    (okM : UnconfOk s.st.awaiting us h) (okH : HUnconfOk s.hAw us h) :
+    (crun cat K s (cUnconfOps us)).st = { (cRewind K s h).st with best := s.st.best } ∧
+    (crun cat K s (cUnconfOps us)).hAw = (cRewind K s h).hAw ∧
+    (crun cat K s (cUnconfOps us)).pre = (cRewind K s h).pre ∧
+    ∀ c, c ∈ (crun cat K s (cUnconfOps us)).claims ↔
+      c ∈ (cRewind K s h).claims ∨
+      (c ∈ s.claims ∧ h < c.creation ∧ ∀ e ∈ s.hAw, h < e.height → c.creation < e.height) := by
+  obtain ⟨j1, j2, j3⟩ := cUnconf_aux cat K h us s okH
+  refine ⟨?_, ?_, j3, fun c => ?_⟩
+  · rw [crun_st, chainOps_cUnconfOps, run_unconfOps cat s.st us h okM]; rfl
+  · rw [j1]; exact (handlerDisconnect_hAw h s.claims s.hAw).symm
+  · rw [j2]; exact mem_unconfirmedClaims
+
+/-- … two orders give the same claims, handler entries, preimages and monitor state. -/
+theorem unconfirm_order_independent_claims (cat : Catalog) (K : ClaimCat) (s : CSt) (us₁ us₂ : List Nat) (h : Nat)
+    (okM₁ : UnconfOk s.st.awaiting us₁ h) (okH₁ : HUnconfOk s.hAw us₁ h)
+    (okM₂ : UnconfOk s.st.awaiting us₂ h) (okH₂ : HUnconfOk s.hAw us₂ h) :
+    (crun cat K s (cUnconfOps us₁)).st = (crun cat K s (cUnconfOps us₂)).st ∧
+    (crun cat K s (cUnconfOps us₁)).hAw = (crun cat K s (cUnconfOps us₂)).hAw ∧
+    (crun cat K s (cUnconfOps us₁)).claims = (crun cat K s (cUnconfOps us₂)).claims ∧
+    (crun cat K s (cUnconfOps us₁)).pre = (crun cat K s (cUnconfOps us₂)).pre := by
+  obtain ⟨a1, a2, a3⟩ := cUnconf_aux cat K h us₁ s okH₁
+  obtain ⟨b1, b2, b3⟩ := cUnconf_aux cat K h us₂ s okH₂
+  refine ⟨?_, by rw [a1, b1], by rw [a2, b2], by rw [a3, b3]⟩
+  rw [crun_st, crun_st, chainOps_cUnconfOps, chainOps_cUnconfOps, run_unconfOps cat s.st us₁ h okM₁, run_unconfOps cat s.st us₂ h okM₂]
+
+/-- No OTHER deviation: when every claim dated above the fork point has a handler entry above the fork
+    point at or below its date (the closer's monitor: the commitment transaction is the handler's claim of
+    the funding outpoint, so its entry sits exactly at the date of the HTLC claims), the unconfirm-only
+    rewind leaves exactly the claims of `blocks_disconnected(h)`. -/
+theorem unconfirm_only_equals_listen_when_reached (cat : Catalog) (K : ClaimCat) (s : CSt) (us : List Nat) (h : Nat)
+    (okM : UnconfOk s.st.awaiting us h) (okH : HUnconfOk s.hAw us h)
+    (hreach : ∀ c ∈ s.claims, h < c.creation → ∃ e ∈ s.hAw, h < e.height ∧ e.height ≤ c.creation) (c : Claim) :
+    c ∈ (crun cat K s (cUnconfOps us)).claims ↔ c ∈ (cRewind K s h).claims := by
+  rw [(unconfirm_only_vs_listen cat K s us h okM okH).2.2.2 c]
+  constructor
+  · rintro (h1 | ⟨h1, h2, h3⟩)
+    · exact h1
+    · obtain ⟨e, he, h4, h5⟩ := hreach c h1 h2
+      have := h3 e he h4
+      omega
+  · exact Or.inl
+
+/-- non-vacuity, the seeded C11-r4 shape in the model: counterparty commitment 1 at 100 (no handler entry),
+    the recipient's claim transaction 2 at 101 spends output 7; both removed (fork point 99).  Lowest-first
+    and highest-first leave NO handler entry and the same claims; the HTLC claim dated 100 lingers (below the
+    handler entry at 101) where the Listen client drops it — the one permitted difference. -/
+example :
+    let cat : Catalog := fun t => if t = 1 then [{ kind := 2, csv := none }] else [{ kind := 3, csv := none }]
+    let K : ClaimCat := { outs := [(7, { parent := 1, needs := some 5, holder := false })], spends := fun t => if t = 2 then [7] else [] }
+    let s := crun cat K (cinit 98) [.preimage 5, .chain (.txsConfirmed 100 [1]), .chain (.txsConfirmed 101 [2]), .chain (.bestBlock 102)]
+    s.claims = [⟨7, 100⟩] ∧ s.hAw = [⟨2, 101, 7⟩] ∧
+    (crun cat K s (cUnconfOps [1, 2])).hAw = [] ∧ (crun cat K s (cUnconfOps [2, 1])).hAw = [] ∧
+    (crun cat K s (cUnconfOps [1, 2])).claims = [⟨7, 100⟩] ∧ (crun cat K s (cUnconfOps [2, 1])).claims = [⟨7, 100⟩] ∧
+    (cRewind K s 99).claims = [] := by decide
+
+/-- Stale creation heights: while a claim on an output lingers, the requests of the re-confirmed parent are
+    ignored for that output (update_claims_view_from_requests' duplicate filter) — the claim is NOT lost, but it
+    keeps its OLD date whatever the new confirmation height. -/
+theorem reconfirmation_keeps_stale_date (H : Nat) (cl : List Claim) (reqs : List (Nat × Option Nat))
+    (o c : Nat) (hx : (⟨o, c⟩ : Claim) ∈ cl) :
+    (⟨o, c⟩ : Claim) ∈ registerAll H cl reqs ∧
+    ∀ c', (⟨o, c'⟩ : Claim) ∈ registerAll H cl reqs → (⟨o, c'⟩ : Claim) ∈ cl := by
+  refine ⟨registerAll_mono hx, fun c' h' => ?_⟩
+  rcases mem_registerAll h' with h1 | ⟨req, _, h2, h3⟩
+  · exact h1
+  · have : req.1 = o := by have := congrArg Claim.out h2; simpa using this.symm
+    rw [this, hasClaim_iff.2 ⟨c, hx⟩] at h3
+    cases h3
+
+/-- the mechanism of KF-C06-1 in the model (kernel-checked): the counterparty commitment 1 confirms at 103, is
+    reported unconfirmed (the HTLC claim dated 103 lingers), re-confirms LOWER at 101 before any
+    best_block_updated (request ignored, date stays 103); the next best_block_updated(102) — below the stale
+    date, above the real confirmation — drops the claim although the commitment is confirmed at 101 -/
+example :
+    let K : ClaimCat := { outs := [(7, { parent := 1, needs := some 5, holder := false })], spends := fun _ => [] }
+    let pre : List COp := [.preimage 5, .chain (.txsConfirmed 103 [1]), .chain (.bestBlock 104), .chain (.txUnconfirmed 1), .chain (.txsConfirmed 101 [1])]
+    (crun exCat K (cinit 99) pre).claims = [⟨7, 103⟩] ∧ FscAw 1 (crun exCat K (cinit 99) pre).st 101 ∧
+    (crun exCat K (cinit 99) (pre ++ [.chain (.bestBlock 102)])).claims = [] ∧
+    FscAw 1 (crun exCat K (cinit 99) (pre ++ [.chain (.bestBlock 102)])).st 101 := by decide
+
 
 end Ldk.C11
